@@ -19,7 +19,16 @@ Theorem C31_source_facts :
   gen_jitter_modulus = jitter_modulus /\ gen_jitter_factor = jitter_factor /\
   gen_jitter_divisor = "1000.0"%string /\ gen_jitter_offset = "0.5"%string /\
   gen_manager_schedules_on_dial_failure = true /\ gen_manager_schedules_on_disconnect = true /\
-  gen_manager_disconnectall_pauses = true /\ gen_manager_callback_is_handle_reconnect = true.
+  gen_manager_disconnectall_pauses = true /\ gen_manager_callback_is_handle_reconnect = true /\
+  (* settings -> agent.New -> peer.Manager: each parameter is read from its own setting *)
+  gen_agent_InitialDelay_from = "a.cfg.Connections.Reconnect.InitialDelay"%string /\
+  gen_agent_MaxDelay_from = "a.cfg.Connections.Reconnect.MaxDelay"%string /\
+  gen_agent_Multiplier_from = "a.cfg.Connections.Reconnect.Multiplier"%string /\
+  gen_agent_Jitter_from = "a.cfg.Connections.Reconnect.Jitter"%string /\
+  gen_agent_MaxAttempts_from = "a.cfg.Connections.Reconnect.MaxRetries"%string /\
+  gen_agent_KeepaliveInterval_from = "a.cfg.Connections.IdleThreshold"%string /\
+  gen_agent_KeepaliveTimeout_from = "a.cfg.Connections.Timeout"%string /\
+  gen_agent_KeepaliveJitter_from = "a.cfg.Connections.KeepaliveJitter"%string.
 Proof. repeat split; reflexivity. Qed.
 Print Assumptions C31_source_facts.
 
